@@ -59,6 +59,12 @@ BlockTab ==
    t7    |-> << D("TYPE", <<"@t7", "regex">>, "", FALSE, "rx2", "") >>,
    useR1 |-> << D("GET", <<"pr1">>, "", FALSE, "", ""), D("RESP", <<>>, "", FALSE, "objr7", "200") >>,          \* needs t7
    useR2 |-> << D("GET", <<"pr2">>, "", FALSE, "", ""), D("RESP", <<>>, "", FALSE, "objr7", "200") >>,          \* needs t7
+   \* a Tags directive that names the automatic tag of another path (never declared by TAG): rejected, in either order
+   tagAuto |-> << D("GET", <<"pcats">>, "", FALSE, "", ""), D("RESP", <<"any">>, "", FALSE, "", "200"),
+                  D("GET", <<"pdogs">>, "", FALSE, "", ""), D("Tags", <<"@cats">>, "", FALSE, "", ""), D("RESP", <<"any">>, "", FALSE, "", "200") >>,
+   \* URL-level Tags with JSON-RPC methods
+   rpcUT |-> << D("URL", <<"pru">>, "", FALSE, "", ""), D("Tags", <<"@g1">>, "", FALSE, "", ""), D("Protocol", <<"json-rpc-2.0">>, "", FALSE, "", ""),
+                D("Method", <<"baz">>, "", FALSE, "", ""), D("Result", <<>>, "", FALSE, "str", "") >>,                                  \* needs tag1
    \* a Description of several lines
    descM |-> << D("GET", <<"pdm">>, "", FALSE, "", ""), D("Description", <<>>, "", FALSE, "d3", ""), D("RESP", <<"any">>, "", FALSE, "", "200") >>,
    \* a union written without blanks, and a type that inherits it through allOf (needs t1 t2; t6 needs t5)
